@@ -1,15 +1,29 @@
 #!/usr/bin/env python3
-"""Prints the DESIGN.md section 8 table from /verif/seeded/*/meta.json"""
-import glob, json, os
+"""Prints the DESIGN.md section 8 table from /verif/seeded/*/meta.json; with --write, replaces the text between the
+<!-- seeded-table --> markers in DESIGN.md"""
+import glob, json, os, re, sys
 rows = []
 for d in sorted(glob.glob('/verif/seeded/*')):
     m = json.load(open(os.path.join(d, 'meta.json')))
     notes = m.get('needs_to_manifest', '').replace('\n', ' ')
-    rows.append((os.path.basename(d), m['property'], m['detected'], m.get('what_i_ran', '').replace('\n', ' '), notes[:260]))
-print('| seeded change | property | detected | by which conditions / why not | what it is (from the seeder\'s notes) |')
-print('|---|---|---|---|---|')
+    notes = re.sub(r'\s+', ' ', notes)
+    mm = re.match(r'Change: (.*?)(?= Breaks:| Needs:|$)', notes)
+    what = (mm.group(1) if mm else notes)[:330].replace('|', '\\|')
+    rows.append((os.path.basename(d), m['detected'], re.sub(r'\s+', ' ', m.get('what_i_ran', '')).replace('|', '\\|'), what))
+out = ['| seeded change | detected | by which conditions / why not | what was changed (from the seeder\'s notes) |', '|---|---|---|---|']
 for r in rows:
-    print('| %s | %s | %s | %s | %s |' % r)
-print()
-print('%d seeded changes, %d detected, %d partly, %d not detected' % (
-    len(rows), sum(r[2] == 'yes' for r in rows), sum(r[2] == 'partly' for r in rows), sum(r[2] == 'no' for r in rows)))
+    out.append('| %s | %s | %s | %s |' % r)
+out.append('')
+out.append('%d seeded changes: %d detected, %d partly, %d not detected.' % (
+    len(rows), sum(r[1] == 'yes' for r in rows), sum(r[1] == 'partly' for r in rows), sum(r[1] == 'no' for r in rows)))
+text = '\n'.join(out)
+if '--write' in sys.argv:
+    p = '/verif/DESIGN.md'
+    t = open(p).read()
+    a, b = '<!-- seeded-table -->', '<!-- /seeded-table -->'
+    i, j = t.index(a), t.index(b)
+    t = t[:i + len(a)] + '\n' + text + '\n' + t[j:]
+    open(p, 'w').write(t)
+    print('written', len(rows))
+else:
+    print(text)
